@@ -297,8 +297,11 @@ class RemoteWorker(Worker, metaclass=RemoteWorkerMeta):
                     self._child.join(timeout)
                     try:
                         send_msg(self._socket, (False, None), comment='data: force terminate result')
+                        # close() alone sends no EOF while another process holds a copy of the socket (the accept loop does,
+                        # for workers created in a context) - the parent would wait for ever for the rest of the report
+                        self._socket.shutdown(socket.SHUT_WR)
                         self._socket.close()
-                    except ConnectionClosedError:
+                    except (ConnectionClosedError, OSError):
                         pass
 
             alive = self._child.is_alive()
